@@ -255,7 +255,12 @@ theorem step_w {cfg : Cfg} {s : St} {op : Op} (hg : Good s) (h : HD s) (hl : Leg
     refine ⟨?_, h.2⟩
     intro x hx
     exact use_mono hg.pid id x.1 (h.1 x hx)
-  | release id => exact (hw.release hi).2
+  | release id =>
+    -- fix ba1a812: after the allocator, the wait sets shrink (same store, same allocator)
+    refine (releasePacketId_ind (Q := W) _ id (hw.release hi) (fun h1 => ?_)
+      (fun h2 => h2.congr (K2_decSendCount _))).2
+    exact h1.shrink rfl (fun _ hx => hx) (fun _ hx => (mem_del.1 hx).1) (fun _ hx => (mem_del.1 hx).1)
+      (fun _ hx => (mem_del.1 hx).1) (fun _ hx => (mem_del.1 hx).1) (fun _ hx => hx)
   | erase id => exact (w_eraseStoredPublish hw id).2
   | restoreHandled ids => exact h
   | restorePackets ps => exact (w_restorePackets ps _ hw hi).2
